@@ -16,6 +16,16 @@ use std::str::FromStr;
 use vh::Rng;
 
 const ALPHA: [u8; 4] = [0x00, b'/', b'a', 0xFF];
+/// the same domain with a multi-byte character in place of the non-UTF-8 byte, so that the &str
+/// constructors (try_from_str, FromStr, from_format, from_str_checked) see a 4-letter alphabet too
+const TEXT_ALPHA: [&str; 4] = ["\0", "/", "a", "\u{e9}"];
+fn text_of(idx: &[u8]) -> Vec<u8> {
+    let mut v = Vec::with_capacity(idx.len() * 2);
+    for &i in idx {
+        v.extend_from_slice(TEXT_ALPHA[i as usize].as_bytes());
+    }
+    v
+}
 
 struct St {
     rep: Rep,
@@ -392,13 +402,40 @@ fn unary(st: &mut St, b: &[u8], deep: bool) {
         ctor_owned(st, "string_try_from_string", b, valid_owned, &want, g);
         let g = vh::catch(|| UnixString::from_str(s));
         ctor_owned(st, "string_from_str", b, valid_owned, &want, g);
-        if valid_borrowed {
-            // const validator at run time, valid inputs only (its panic on invalid input is documented)
-            match vh::catch(|| UnixStr::from_str_checked(s)) {
-                Err(p) => panic_viol(st, "from_str_checked", b, &[], &p),
-                Ok(u) => {
-                    if check_ref(st, "from_str_checked", u, true, b, &[]) && u.as_slice() != b {
+        // const validator behind unix_lit!, called at run time on EVERY text: its documented
+        // rejection is a panic (expected for unrepresentable text, not a violation here); accepting
+        // text that is not "no NUL except exactly one as the last byte" is the refuting event
+        match vh::catch(|| UnixStr::from_str_checked(s)) {
+            Err(p) => {
+                if valid_borrowed {
+                    panic_viol(st, "from_str_checked", b, &[], &p);
+                } else {
+                    st.op("from_str_checked");
+                    st.class("from_str_checked", b, "rejected-by-panic");
+                }
+            }
+            Ok(u) => {
+                if !valid_borrowed {
+                    st.op("from_str_checked");
+                    st.viol("from_str_checked", "accepts-unrepresentable", b, &[], u.as_slice(), "unrepresentable text accepted by the validator");
+                    // what the next operation makes of it (reported under its own operation name)
+                    let o = UnixString::from(u);
+                    if let Some(t) = mk(b"secret.txt") {
+                        let j = vh::catch(|| o.path_join(&t));
+                        produced(st, "path_join", o.as_slice(), t.as_slice(), true, j);
+                    }
+                } else if check_ref(st, "from_str_checked", u, true, b, &[]) {
+                    if u.as_slice() != b {
                         st.viol("from_str_checked", "content-changed", b, &[], u.as_slice(), "content changed");
+                    } else {
+                        let o = UnixString::from(u);
+                        if let Some(t) = mk(b"secret.txt") {
+                            let j = vh::catch(|| o.path_join(&t));
+                            if let Some(j) = produced(st, "path_join", o.as_slice(), t.as_slice(), true, j) {
+                                chain(st, &j, true, 2);
+                            }
+                        }
+                        chain(st, &o, true, if deep { 4 } else { 2 });
                     }
                 }
             }
@@ -522,6 +559,15 @@ fn exh(seed: u64, ulen: usize, plen: usize, modulus: u64, res: u64) {
                 n_un += 1;
             }
         }
+        let mut n_text = 0u64;
+        for (i, ix) in all_strings(&[0, 1, 2, 3], ulen).iter().enumerate() {
+            // texts without the multi-byte letter were already covered above
+            if ix.contains(&3) && selected((1 << 45) + i as u64, seed, modulus, res) {
+                unary(&mut st, &text_of(ix), true);
+                n_text += 1;
+            }
+        }
+        vh::count("exhaustive_text_inputs_with_multibyte_char", n_text);
         let ps = all_strings(&ALPHA, plen);
         let n = ps.len() as u64;
         for (i, x) in ps.iter().enumerate() {
@@ -541,6 +587,8 @@ fn exh(seed: u64, ulen: usize, plen: usize, modulus: u64, res: u64) {
         for k in 0..nu {
             let s = sample_string(&mut r, &ALPHA, ulen, k % 2 == 1);
             unary(&mut st, &s, true);
+            let ix = sample_string(&mut r, &[0, 1, 2, 3], ulen, k % 2 == 0);
+            unary(&mut st, &text_of(&ix), true);
         }
         for k in 0..np {
             let x = sample_string(&mut r, &ALPHA, plen, k % 2 == 1);
